@@ -43,7 +43,7 @@ def m1_tiny(c1: int, c2: int, c3: int, nw: bool) -> bool:
 M2_ALPH = 'a *_`[]()\\'
 
 
-@lemma('M2.inline', 'C09', quick=[{'k': 1}, {'k': 2}] + by('c1', list(M2_ALPH), [{'k': 3}]),
+@lemma('M2.inline', 'C09', quick=[{'k': 1}, {'k': 2}] + by('c1', list('*`['), [{'k': 3}]),
        thorough=[{'k': 1}, {'k': 2}] + by('c1', list(M2_ALPH), [{'k': 3}, {'k': 4, 'timeout': 5000}]), timeout=900, per_path=90,
        covers=['markdown_renderer.py:MarkdownRenderer.span_to_lines', 'markdown_renderer.py:MarkdownRenderer.make_fragments',
                'markdown_renderer.py:MarkdownRenderer.fragments_to_lines', 'markdown_renderer.py:MarkdownRenderer.embed_span',
